@@ -17,6 +17,16 @@ type ctx struct {
 	brk  func() block
 	cont func() block
 	resT string // result type of the def being generated (what ret/brk/cont produce)
+	// the function-like thing `return` returns from: the translated function, or a closure being
+	// inlined (its own result types; no receiver state appended)
+	retT    string
+	results []types.Type
+	named   []types.Object
+	closure bool
+}
+
+func (c *ctx) derive() *ctx {
+	return &ctx{resT: c.resT, retT: c.retT, results: c.results, named: c.named, closure: c.closure}
 }
 
 func wrapRet(b block) block {
@@ -393,7 +403,8 @@ func (t *tfunc) mkIf(cond string, swap bool, a, b br) br {
 				}
 				return block{"GoInt.Ctl.fall " + paren(tupleOf(names))}
 			}
-			c2 := &ctx{resT: c.resT, ret: func(v string) block { return wrapRet(c.ret(v)) }}
+			c2 := c.derive()
+			c2.ret = func(v string) block { return wrapRet(c.ret(v)) }
 			if c.brk != nil {
 				c2.brk = func() block { return wrapRet(c.brk()) }
 			}
@@ -649,29 +660,90 @@ func (t *tfunc) ret(v *ast.ReturnStmt, c *ctx) block {
 	var vals []string
 	switch {
 	case len(v.Results) == 0:
-		for _, o := range t.named {
+		for _, o := range c.named {
 			vals = append(vals, t.use(t.name(o)))
 		}
-	case len(v.Results) == 1 && len(t.results) > 1:
-		if len(t.state) > 0 {
+	case len(v.Results) == 1 && len(c.results) > 1:
+		if len(t.state) > 0 && !c.closure {
 			t.bad(v, "return of a call's whole result in a function that writes receiver state")
 		}
 		return c.ret(t.expr(v.Results[0], nil)) // f() returning the whole tuple
 	default:
-		if len(v.Results) != len(t.results) {
+		if len(v.Results) != len(c.results) {
 			t.bad(v, "return arity")
 		}
 		for i, e := range v.Results {
-			vals = append(vals, t.expr(e, t.results[i]))
+			vals = append(vals, t.expr(e, c.results[i]))
 		}
 	}
-	if len(t.state) > 0 {
+	if len(t.state) > 0 && !c.closure {
 		if len(vals) > 1 {
 			vals = []string{tupleOf(vals)}
 		}
 		return c.ret(t.withState(vals))
 	}
 	return c.ret(tupleOf(vals))
+}
+
+// inlineClosure: `f(args)` for a function literal bound to a local: the literal's body as a term of
+// its result type, with the parameters bound to the arguments.  The literal may read what it
+// captures but must not assign it.
+func (t *tfunc) inlineClosure(call *ast.CallExpr) (block, string) {
+	id := ast.Unparen(call.Fun).(*ast.Ident)
+	fl := t.closures[t.info().Uses[id]]
+	sig, _ := typeOf(t.pi, fl).(*types.Signature)
+	if sig == nil {
+		t.bad(call, "closure without type information")
+	}
+	for _, o := range t.assignedOuter(fl.Body) {
+		if o.Pos() < fl.Pos() || o.Pos() >= fl.End() {
+			t.bad(call, "closure assigns a variable it captures")
+		}
+	}
+	var out block
+	i := 0
+	for _, f := range fl.Type.Params.List {
+		for _, n := range f.Names {
+			if i >= len(call.Args) {
+				t.bad(call, "closure call arity")
+			}
+			if o := t.info().Defs[n]; o != nil && n.Name != "_" {
+				out = append(out, t.bind(o, t.expr(call.Args[i], o.Type()))...)
+			}
+			i++
+		}
+	}
+	var results []types.Type
+	var named []types.Object
+	var rts []string
+	if fl.Type.Results != nil {
+		for _, f := range fl.Type.Results.List {
+			ty := typeOf(t.pi, f.Type)
+			if len(f.Names) == 0 {
+				results = append(results, ty)
+				rts = append(rts, t.g.leanType(ty))
+			}
+			for _, n := range f.Names {
+				results = append(results, ty)
+				rts = append(rts, t.g.leanType(ty))
+				o := t.info().Defs[n]
+				named = append(named, o)
+				out = append(out, t.bind(o, zeroOf(ty))...)
+			}
+		}
+	}
+	rt := tupleType(rts)
+	c := &ctx{resT: rt, retT: rt, results: results, named: named, closure: true, ret: func(v string) block { return block{v} }}
+	t.inClosure++
+	body := t.stmts(fl.Body.List, c, func() block {
+		if len(results) == 0 {
+			return block{"()"}
+		}
+		t.bad(fl, "control reaches the end of a closure with results")
+		return nil
+	})
+	t.inClosure--
+	return append(out, body...), rt
 }
 
 // bind: `let <name of o> : T := val`
@@ -687,6 +759,23 @@ func (t *tfunc) bind(o types.Object, val string) block {
 
 func (t *tfunc) assignStmt(v *ast.AssignStmt) block {
 	info := t.info()
+	if len(v.Rhs) == 1 {
+		if _, ok := ast.Unparen(v.Rhs[0]).(*ast.FuncLit); ok && len(v.Lhs) == 1 {
+			if id, ok := v.Lhs[0].(*ast.Ident); ok && t.closures[info.Defs[id]] != nil {
+				return nil // a closure bound to a local: inlined where it is called
+			}
+		}
+		if call, ok := ast.Unparen(v.Rhs[0]).(*ast.CallExpr); ok && t.isClosureCall(call) && (v.Tok == token.DEFINE || v.Tok == token.ASSIGN) {
+			body, rt := t.inlineClosure(call)
+			tn := t.tmp()
+			t.declare(tn, rt)
+			out := letLine(tn, rt, body, nil)
+			for i, l := range v.Lhs {
+				out = append(out, t.assign(l, proj(tn, i, len(v.Lhs)))...)
+			}
+			return out
+		}
+	}
 	if v.Tok != token.DEFINE && v.Tok != token.ASSIGN {
 		ops := map[token.Token]token.Token{token.ADD_ASSIGN: token.ADD, token.SUB_ASSIGN: token.SUB, token.MUL_ASSIGN: token.MUL,
 			token.QUO_ASSIGN: token.QUO, token.REM_ASSIGN: token.REM, token.AND_ASSIGN: token.AND, token.OR_ASSIGN: token.OR,
@@ -900,7 +989,7 @@ func (t *tfunc) loop(list string, elemType string, bind func(elem string) block,
 	sT := tupleType(sTypes)
 	resT := sT
 	if hasRet {
-		resT = fmt.Sprintf("GoInt.Ctl %s %s", paren(sT), paren(t.retType))
+		resT = fmt.Sprintf("GoInt.Ctl %s %s", paren(sT), paren(c.retT))
 	}
 	elem, rest, st := fmt.Sprintf("e%d", id), fmt.Sprintf("rest%d", id), fmt.Sprintf("s%d", id)
 	ph := fmt.Sprintf("\x00F%d\x00", id)
@@ -921,7 +1010,8 @@ func (t *tfunc) loop(list string, elemType string, bind func(elem string) block,
 		}
 		return tupleOf(sNames)
 	}
-	lc := &ctx{
+	lc := c.derive()
+	*lc = ctx{retT: c.retT, results: c.results, named: c.named, closure: c.closure,
 		resT: resT,
 		ret:  func(v string) block { return block{"GoInt.Ctl.ret " + paren(v)} },
 		brk:  func() block { return block{fall(cur())} },
@@ -1200,4 +1290,9 @@ func (t *tfunc) rangeStmt(v *ast.RangeStmt, c *ctx, k func() block) block {
 	}
 	t.bad(v, "range over this kind of value (maps have no order)")
 	return nil
+}
+
+func (t *tfunc) isClosureCall(call *ast.CallExpr) bool {
+	id, ok := ast.Unparen(call.Fun).(*ast.Ident)
+	return ok && t.closures[t.info().Uses[id]] != nil
 }
